@@ -370,6 +370,17 @@ def mk_mkiface(impl):
     return s
 
 
+def s_mkifaceG(e, x):
+    # the interface value holds one of TWO instantiations of the same generic type: the invoke has two possible callees
+    # that share one declaration
+    y = e.out("IF")
+    with e.f.if_oracle() as br:
+        e.f.mkiface(y, "gboxS", x)
+        with br.else_():
+            e.f.mkiface(y, "gboxN", x)
+    return y
+
+
 def s_invoke(e, x):
     y = e.out("S"); e.f.invoke([y], x, "get", []); return y
 
@@ -930,6 +941,7 @@ STEPS = {
     "mkifaceA": ("S", "IF", "iface", mk_mkiface("impA")),
     "mkifaceB": ("S", "IF", "iface", mk_mkiface("impB")),
     "mkifaceV": ("S", "IF", "iface", mk_mkiface("valT")),
+    "mkifaceG": ("S", "IF", "iface", s_mkifaceG),
     "invoke": ("IF", "S", "iface", s_invoke),
     "ifaceput": ("S", "IF", "iface", s_ifaceput),
     "idcall": ("S", "S", "call", s_idcall),
